@@ -498,6 +498,7 @@ class TrioWorld(WorldBase):
 
             if not self.finished:
                 rec.handler = f"exc:{_exc_repr(e)}"
+                rec.handler_exc = e
                 rec.handler_done_at = self.now()
         else:
             if not self.finished:
